@@ -2859,12 +2859,20 @@ pub mod verif {
 
         /// What the scheduler currently asks for, per active queue: (queue, sn workers, mn allocations, mn workers per allocation)
         pub fn demand(&self) -> Vec<(QueueId, u32, u32, u32)> {
+            // the queues that are still active after the `try_pause_queue` pass of perform_submits
             let queues: Vec<_> = self
                 .state
                 .queues()
-                .filter(|(_, q)| q.state().is_active())
+                .filter(|(_, q)| {
+                    q.state().is_active()
+                        && !matches!(
+                            q.limiter().submission_status(),
+                            RateLimiterStatus::TooManyFailedSubmissions
+                                | RateLimiterStatus::TooManyFailedAllocations
+                        )
+                })
                 .collect();
-            if queues.is_empty() {
+            if queues.is_empty() || queues.iter().all(|(_, q)| !q.has_space_for_submit()) {
                 return vec![];
             }
             let queries: Vec<WorkerTypeQuery> = queues
